@@ -122,12 +122,38 @@ def Latest.overlay (L : Latest) (ps : List Profile) (ds : List Device) : Latest 
 def Latest.apply (L : Latest) (full : Bool) (ps : List Profile) (ds : List Device) : Latest :=
   (if full then Latest.empty else L).overlay ps ds
 
-def latestStep (L : Latest) : Op → Latest
-  | .sync full ps ds => L.apply full ps ds
-  | _ => L
+/-- The abstract view of the whole system: the latest synchronised records the running database
+is supposed to answer from, and what the cache file holds. -/
+structure Spec where
+  cur : Latest
+  disk : Option CacheFile
 
-/-- The latest records after a history; look-ups and clean-ups do not matter. -/
-def latest (ops : List Op) : Latest := ops.foldl latestStep Latest.empty
+def Spec.empty : Spec := { cur := Latest.empty, disk := none }
+
+/-- Whether a database started on cache file `f`, read as version `v`, uses it. -/
+def CacheFile.usable (v : Nat) (f : CacheFile) : Prop :=
+  v = fileCacheVersion ∧ f.profs ≠ [] ∧ f.devs ≠ []
+
+instance (v : Nat) (f : CacheFile) : Decidable (f.usable v) := by
+  unfold CacheFile.usable; infer_instance
+
+/-- The latest records after a restart: those of the cache file if it is usable, else none. -/
+def restartLatest (v : Nat) : Option CacheFile → Latest
+  | none => Latest.empty
+  | some f => if f.usable v then Latest.empty.overlay f.profs f.devs else Latest.empty
+
+/-- A synchronisation updates the latest records (a full one also the cache file); a restart
+falls back to the cache file; look-ups and clean-ups do not matter. -/
+def specStep (S : Spec) : Op → Spec
+  | .sync full t ps ds =>
+    { cur := S.cur.apply full ps ds, disk := if full then some ⟨t, ps, ds⟩ else S.disk }
+  | .restart v => { cur := restartLatest v S.disk, disk := S.disk }
+  | _ => S
+
+def spec (ops : List Op) : Spec := ops.foldl specStep Spec.empty
+
+/-- The latest records after a history. -/
+def latest (ops : List Op) : Latest := (spec ops).cur
 
 /-- Device `id` currently exists as `d` and is contained in the current profile `p`. -/
 def OwnerDev (L : Latest) (id : Nat) (p : Profile) (d : Device) : Prop :=
@@ -155,7 +181,7 @@ structure RespWF (ps : List Profile) (ds : List Device) : Prop where
 /-- Well-formed histories: every response is well formed and the latest data is unambiguous
 after every prefix. -/
 structure HistWF (ops : List Op) : Prop where
-  resp : ∀ full ps ds, Op.sync full ps ds ∈ ops → RespWF ps ds
+  resp : ∀ full t ps ds, Op.sync full t ps ds ∈ ops → RespWF ps ds
   uniq : ∀ pre, pre <+: ops → Uniq (latest pre)
 
 /-! ### Invariant -/
@@ -299,15 +325,13 @@ theorem lookupHuman_spec {s : St} {L : Latest} (hI : Inv s L) (pid h : Nat) (p :
 
 /-! ### The invariant is preserved -/
 
-theorem inv_pending {s : St} {L : Latest} (hI : Inv s L) (pd : List Cleanup) :
-    Inv { s with pending := pd } L :=
-  { profs := hI.profs, devs := hI.devs, pkey := hI.pkey, dkey := hI.dkey, cdev := hI.cdev,
-    ckey := hI.ckey }
+theorem inv_congr {s s' : St} {L : Latest} (hI : Inv s L) (h1 : s'.profiles = s.profiles)
+    (h2 : s'.devices = s.devices) (h3 : s'.devIdx = s.devIdx) (h4 : s'.idx = s.idx) : Inv s' L :=
+  { profs := by rw [h1]; exact hI.profs, devs := by rw [h2]; exact hI.devs, pkey := hI.pkey,
+    dkey := hI.dkey, cdev := by rw [h3]; exact hI.cdev, ckey := by rw [h4]; exact hI.ckey }
 
-theorem inv_cache {s : St} {L : Latest} (hI : Inv s L) (c : Option (List Profile × List Device)) :
-    Inv { s with cache := c } L :=
-  { profs := hI.profs, devs := hI.devs, pkey := hI.pkey, dkey := hI.dkey, cdev := hI.cdev,
-    ckey := hI.ckey }
+theorem inv_pending {s : St} {L : Latest} (hI : Inv s L) (pd : List Cleanup) :
+    Inv { s with pending := pd } L := inv_congr hI rfl rfl rfl rfl
 
 theorem applyCleanup_dev (s : St) (id : Nat) : applyCleanup s (.dev id) =
     (match attachedDevice s id with
@@ -484,59 +508,240 @@ theorem inv_setAll {b : St} {Lb : Latest} (hI : Inv b Lb) (ps : List Profile) (d
         · exact hb
       exact hI.ckey k p d ⟨hk, hpb, hin, hdb⟩
 
-theorem inv_sync {s : St} {L : Latest} (hI : Inv s L) (full : Bool) (ps : List Profile)
+theorem inv_sync {s : St} {L : Latest} (hI : Inv s L) (full : Bool) (t : Nat) (ps : List Profile)
     (ds : List Device) (hW : RespWF ps ds) (hU : Uniq (L.apply full ps ds)) :
-    Inv (applySync s full ps ds) (L.apply full ps ds) := by
+    Inv (applySync s full t ps ds) (L.apply full ps ds) := by
   unfold applySync Latest.apply
   cases full with
   | true =>
     simp only [if_true]
-    exact inv_cache (inv_setAll (inv_cleared s) ps ds hW (by simpa [Latest.apply] using hU)) _
+    exact inv_congr (inv_setAll (inv_cleared s) ps ds hW (by simpa [Latest.apply] using hU))
+      rfl rfl rfl rfl
   | false =>
     simp only [Bool.false_eq_true, if_false]
-    exact inv_setAll hI ps ds hW (by simpa [Latest.apply] using hU)
+    exact inv_congr (inv_setAll hI ps ds hW (by simpa [Latest.apply] using hU)) rfl rfl rfl rfl
 
 theorem step_run (s : St) (i : Nat) : step s (.run i) =
     (match s.pending[i]? with
     | none => s
     | some c => applyCleanup { s with pending := s.pending.eraseIdx i } c) := rfl
 
-theorem inv_step {s : St} {L : Latest} (hI : Inv s L) (op : Op)
-    (hW : ∀ full ps ds, op = .sync full ps ds → RespWF ps ds) (hU : Uniq (latestStep L op)) :
-    Inv (step s op) (latestStep L op) := by
+/-- `New` + `loadFileCache` establish the invariant for the records of the cache file. -/
+theorem inv_loadCache (v : Nat) (c : Option CacheFile)
+    (hW : ∀ f, c = some f → RespWF f.profs f.devs) (hU : Uniq (restartLatest v c)) :
+    Inv (loadCache v c) (restartLatest v c) := by
+  unfold loadCache restartLatest
+  cases c with
+  | none => exact inv_init
+  | some f =>
+    simp only []
+    by_cases hv : v = fileCacheVersion
+    · by_cases he : f.profs.length = 0 ∨ f.devs.length = 0
+      · have hnu : ¬ f.usable v := by
+          intro ⟨_, h1, h2⟩
+          rcases he with he | he
+          · exact h1 (List.length_eq_zero_iff.mp he)
+          · exact h2 (List.length_eq_zero_iff.mp he)
+        rw [if_neg (by simpa using hv), if_pos he, if_neg hnu]
+        exact inv_congr inv_init rfl rfl rfl rfl
+      · have hu : f.usable v := by
+          refine ⟨hv, ?_, ?_⟩
+          · intro h; exact he (Or.inl (by simp [h]))
+          · intro h; exact he (Or.inr (by simp [h]))
+        rw [if_neg (by simpa using hv), if_neg he, if_pos hu]
+        have hU' : Uniq (Latest.empty.overlay f.profs f.devs) := by
+          have := hU; unfold restartLatest at this; simpa [hu] using this
+        exact inv_congr (inv_setAll inv_init f.profs f.devs (hW f rfl) hU') rfl rfl rfl rfl
+    · have hnu : ¬ f.usable v := fun h => hv h.1
+      rw [if_pos hv, if_neg hnu]
+      exact inv_congr inv_init rfl rfl rfl rfl
+
+/-- The invariant of the whole system: the index invariant for the current records, the cache
+file is what the specification says, and its content is a well-formed response. -/
+structure InvS (s : St) (S : Spec) : Prop where
+  inv : Inv s S.cur
+  cache : s.cache = S.disk
+  diskWF : ∀ f, S.disk = some f → RespWF f.profs f.devs
+
+theorem applyCleanup_cache (s : St) (c : Cleanup) :
+    (applyCleanup s c).cache = s.cache ∧ (applyCleanup s c).syncTime = s.syncTime := by
+  cases c with
+  | dev id => rw [applyCleanup_dev]; split <;> exact ⟨rfl, rfl⟩
+  | key k =>
+    rw [applyCleanup_key]
+    split
+    · exact ⟨rfl, rfl⟩
+    · split
+      · split <;> exact ⟨rfl, rfl⟩
+      · exact ⟨rfl, rfl⟩
+
+theorem loadCache_cache (v : Nat) (c : Option CacheFile) : (loadCache v c).cache = c := by
+  unfold loadCache
+  cases c with
+  | none => rfl
+  | some f =>
+    simp only []
+    split
+    · rfl
+    · split <;> rfl
+
+theorem step_cache_other (s : St) (op : Op) (h1 : ∀ full t ps ds, op ≠ .sync full t ps ds) :
+    (step s op).cache = s.cache := by
   cases op with
-  | sync full ps ds => exact inv_sync hI full ps ds (hW full ps ds rfl) hU
-  | byDev id => exact inv_pending hI _
-  | byKey k => exact inv_pending hI _
-  | byHuman pid h => exact inv_pending hI _
+  | sync full t ps ds => exact absurd rfl (h1 full t ps ds)
+  | byDev id => rfl
+  | byKey k => rfl
+  | byHuman pid h => rfl
   | run i =>
-    show Inv (step s (.run i)) L
     rw [step_run]
     split
-    · exact hI
-    · exact inv_cleanup (inv_pending hI _) _
+    · rfl
+    · exact (applyCleanup_cache _ _).1
+  | restart v => exact loadCache_cache v s.cache
 
-theorem inv_foldl (ops : List Op) : ∀ (s : St) (L : Latest), Inv s L →
-    (∀ full ps ds, Op.sync full ps ds ∈ ops → RespWF ps ds) →
-    (∀ pre, pre <+: ops → Uniq (pre.foldl latestStep L)) →
-    Inv (ops.foldl step s) (ops.foldl latestStep L) := by
+theorem inv_step {s : St} {S : Spec} (hI : InvS s S) (op : Op)
+    (hW : ∀ full t ps ds, op = .sync full t ps ds → RespWF ps ds) (hU : Uniq (specStep S op).cur) :
+    InvS (step s op) (specStep S op) := by
+  cases op with
+  | sync full t ps ds =>
+    refine ⟨inv_sync hI.inv full t ps ds (hW full t ps ds rfl) hU, ?_, ?_⟩
+    · show (applySync s full t ps ds).cache = _
+      unfold applySync
+      cases full with
+      | true => rfl
+      | false => exact hI.cache
+    · intro f hf
+      cases full with
+      | true =>
+        have : f = ⟨t, ps, ds⟩ := by
+          have := hf; simp [specStep] at this; exact this.symm
+        subst this
+        exact hW true t ps ds rfl
+      | false => exact hI.diskWF f (by simpa [specStep] using hf)
+  | byDev id => exact ⟨inv_pending hI.inv _, hI.cache, hI.diskWF⟩
+  | byKey k => exact ⟨inv_pending hI.inv _, hI.cache, hI.diskWF⟩
+  | byHuman pid h => exact ⟨inv_pending hI.inv _, hI.cache, hI.diskWF⟩
+  | run i =>
+    refine ⟨?_, ?_, hI.diskWF⟩
+    · show Inv (step s (.run i)) S.cur
+      rw [step_run]
+      split
+      · exact hI.inv
+      · exact inv_cleanup (inv_pending hI.inv _) _
+    · rw [step_cache_other s (.run i) (by intro _ _ _ _ h; cases h)]; exact hI.cache
+  | restart v =>
+    refine ⟨?_, ?_, hI.diskWF⟩
+    · show Inv (loadCache v s.cache) (restartLatest v S.disk)
+      rw [hI.cache]
+      exact inv_loadCache v S.disk hI.diskWF hU
+    · show (loadCache v s.cache).cache = S.disk
+      rw [loadCache_cache]; exact hI.cache
+
+theorem inv_foldl (ops : List Op) : ∀ (s : St) (S : Spec), InvS s S →
+    (∀ full t ps ds, Op.sync full t ps ds ∈ ops → RespWF ps ds) →
+    (∀ pre, pre <+: ops → Uniq (pre.foldl specStep S).cur) →
+    InvS (ops.foldl step s) (ops.foldl specStep S) := by
   induction ops with
-  | nil => intro s L h _ _; exact h
+  | nil => intro s S h _ _; exact h
   | cons o r ih =>
-    intro s L h hW hU
+    intro s S h hW hU
     simp only [List.foldl]
     apply ih
     · apply inv_step h o
-      · intro full ps ds he; exact hW full ps ds (by simp [he])
+      · intro full t ps ds he; exact hW full t ps ds (by simp [he])
       · have := hU [o] (by simp)
         simpa using this
-    · intro full ps ds hm; exact hW full ps ds (List.mem_cons_of_mem _ hm)
+    · intro full t ps ds hm; exact hW full t ps ds (List.mem_cons_of_mem _ hm)
     · intro pre hp
       have := hU (o :: pre) (by simpa using hp)
       simpa using this
 
+theorem invS_init : InvS init Spec.empty :=
+  ⟨inv_init, rfl, by intro f h; cases h⟩
+
+theorem invS_run (ops : List Op) (h : HistWF ops) : InvS (run ops) (spec ops) :=
+  inv_foldl ops init Spec.empty invS_init h.resp h.uniq
+
 theorem inv_run (ops : List Op) (h : HistWF ops) : Inv (run ops) (latest ops) :=
-  inv_foldl ops init Latest.empty inv_init h.resp h.uniq
+  (invS_run ops h).inv
+
+/-! ### The synchronisation point (reference monitor over the event history, newest first) -/
+
+/-- The cache file holds what the most recent successful full synchronisation delivered. -/
+def diskOf : List Ev → Option CacheFile
+  | [] => none
+  | .op (.sync true t ps ds) :: _ => some ⟨t, ps, ds⟩
+  | _ :: older => diskOf older
+
+/-- The sync time of the data the database currently answers from: that of the most recent
+response applied, or of the cache file a restart loaded (zero if the restart found no usable
+cache).  Failed requests, look-ups and clean-ups do not move it. -/
+def lastApplied : List Ev → Nat
+  | [] => 0
+  | .op (.sync _ t _ _) :: _ => t
+  | .op (.restart v) :: older =>
+    match diskOf older with
+    | some f => if f.usable v then f.time else 0
+    | none => 0
+  | _ :: older => lastApplied older
+
+theorem loadCache_syncTime (v : Nat) (c : Option CacheFile) : (loadCache v c).syncTime =
+    (match c with
+    | some f => if f.usable v then f.time else 0
+    | none => 0) := by
+  unfold loadCache
+  cases c with
+  | none => rfl
+  | some f =>
+    simp only []
+    by_cases hv : v = fileCacheVersion
+    · by_cases he : f.profs.length = 0 ∨ f.devs.length = 0
+      · have hnu : ¬ f.usable v := by
+          intro ⟨_, h1, h2⟩
+          rcases he with he | he
+          · exact h1 (List.length_eq_zero_iff.mp he)
+          · exact h2 (List.length_eq_zero_iff.mp he)
+        rw [if_neg (by simpa using hv), if_pos he, if_neg hnu]; rfl
+      · have hu : f.usable v := by
+          refine ⟨hv, ?_, ?_⟩
+          · intro h; exact he (Or.inl (by simp [h]))
+          · intro h; exact he (Or.inr (by simp [h]))
+        rw [if_neg (by simpa using hv), if_neg he, if_pos hu]
+    · have hnu : ¬ f.usable v := fun h => hv h.1
+      rw [if_pos hv, if_neg hnu]; rfl
+
+theorem proto_inv (l : List Ev) :
+    (l.foldr (fun e s => stepEv s e) init).syncTime = lastApplied l ∧
+    (l.foldr (fun e s => stepEv s e) init).cache = diskOf l := by
+  induction l with
+  | nil => exact ⟨rfl, rfl⟩
+  | cons e older ih =>
+    obtain ⟨ih1, ih2⟩ := ih
+    simp only [List.foldr]
+    generalize (older.foldr (fun e s => stepEv s e) init) = s at ih1 ih2 ⊢
+    cases e with
+    | failed full => exact ⟨ih1, ih2⟩
+    | op o =>
+      cases o with
+      | sync full t ps ds =>
+        cases full with
+        | true => exact ⟨rfl, rfl⟩
+        | false => exact ⟨rfl, ih2⟩
+      | byDev id => exact ⟨ih1, ih2⟩
+      | byKey k => exact ⟨ih1, ih2⟩
+      | byHuman pid h => exact ⟨ih1, ih2⟩
+      | run i =>
+        show (step s (.run i)).syncTime = lastApplied older ∧ (step s (.run i)).cache = diskOf older
+        rw [step_run]
+        split
+        · exact ⟨ih1, ih2⟩
+        · exact ⟨(applyCleanup_cache _ _).2.trans ih1, (applyCleanup_cache _ _).1.trans ih2⟩
+      | restart v =>
+        refine ⟨?_, ?_⟩
+        · show (loadCache v s.cache).syncTime = _
+          rw [loadCache_syncTime, ih2]; rfl
+        · show (loadCache v s.cache).cache = _
+          rw [loadCache_cache, ih2]; rfl
 
 /-- A sufficient condition for unambiguous latest data, used for the non-vacuity example: one
 profile id, no dedicated IPs or human ids, and the device id is a function of the linked IP. -/
@@ -562,5 +767,219 @@ theorem uniq_small (L : Latest) (P : Profile) (f : Nat → Nat)
       cases hd2; rfl
     | ded ip => simp [HasKey, e1] at hk
     | human h q => simp [HasKey, u1] at hk; omega
+
+end Agd.ProfileDB
+
+namespace Agd.ProfileDB
+
+/-! ### The database against a backend that answers "changes since t" honestly -/
+
+/-- The two views have the same devices attached to the same profiles. -/
+def OwnEq (L L' : Latest) : Prop := ∀ id p d, OwnerDev L id p d ↔ OwnerDev L' id p d
+
+/-- A backend: its records at every time, and what it answers at time `n` to a request for the
+changes since `t` (profiles, devices). -/
+structure Backend where
+  state : Nat → Latest
+  resp : Nat → Nat → List Profile × List Device
+
+/-- The backend's contract (what `GetDNSProfiles` promises), relative to a notion `R view records`
+of "the view is up to date with the backend's records": time 0 is "nothing yet", and the answer
+at time `n` to "since `t`", laid over any view that is up to date with time `t`, is up to date
+with time `n` — i.e. the answer carries every change made after `t` (changed profiles with all
+their devices, tombstones for deleted ones). -/
+structure Backend.Honest (R : Latest → Latest → Prop) (B : Backend) : Prop where
+  init : R Latest.empty (B.state 0)
+  delta : ∀ t n L, t ≤ n → R L (B.state t) →
+    R (L.overlay (B.resp t n).1 (B.resp t n).2) (B.state n)
+
+/-- What happens to the database: a successful `Refresh` at backend time `n` (the backend answers
+the request the database actually sends), a `Refresh` whose request fails, or any other operation
+(look-up, clean-up execution, restart). -/
+inductive Act
+  | sync (full : Bool) (n : Nat)
+  | fail (full : Bool)
+  | op (o : Op)
+
+/-- `Act.op` is for everything but synchronisations. -/
+def Act.ok : Act → Prop
+  | .op (.sync _ _ _ _) => False
+  | _ => True
+
+/-- Backend times do not run backwards. -/
+def Mono : Nat → List Act → Prop
+  | _, [] => True
+  | now, .sync _ n :: r => now ≤ n ∧ Mono n r
+  | now, _ :: r => Mono now r
+
+/-- The model operation a successful `Refresh` amounts to in state `s`. -/
+def syncOp (B : Backend) (s : St) (full : Bool) (n : Nat) : Op :=
+  .sync full n (B.resp (reqTime s full) n).1 (B.resp (reqTime s full) n).2
+
+/-- The history of model operations the acts produce from state `s`. -/
+def opsOf (B : Backend) : List Act → St → List Op
+  | [], _ => []
+  | .sync full n :: r, s => syncOp B s full n :: opsOf B r (step s (syncOp B s full n))
+  | .fail _ :: r, s => opsOf B r s
+  | .op o :: r, s => o :: opsOf B r (step s o)
+
+structure Tracks (R : Latest → Latest → Prop) (B : Backend) (s : St) (S : Spec) (now : Nat) : Prop where
+  cur : R S.cur (B.state s.syncTime)
+  cache : s.cache = S.disk
+  disk : ∀ f, S.disk = some f → R (Latest.empty.overlay f.profs f.devs) (B.state f.time) ∧ f.time ≤ now
+  le : s.syncTime ≤ now
+
+theorem tracks_init {R : Latest → Latest → Prop} (B : Backend) (hB : B.Honest R) : Tracks R B init Spec.empty 0 :=
+  ⟨hB.init, rfl, (by intro f h; cases h), Nat.le_refl 0⟩
+
+theorem tracks_mono {R : Latest → Latest → Prop} {B : Backend} {s : St} {S : Spec} {now now' : Nat}
+    (h : Tracks R B s S now) (hle : now ≤ now') : Tracks R B s S now' :=
+  ⟨h.cur, h.cache, fun f hf => ⟨(h.disk f hf).1, Nat.le_trans (h.disk f hf).2 hle⟩,
+    Nat.le_trans h.le hle⟩
+
+theorem step_syncTime_lookup (s : St) (op : Op) (h1 : ∀ full t ps ds, op ≠ .sync full t ps ds)
+    (h2 : ∀ v, op ≠ .restart v) : (step s op).syncTime = s.syncTime ∧ specStep S op = S := by
+  cases op with
+  | sync full t ps ds => exact absurd rfl (h1 full t ps ds)
+  | byDev id => exact ⟨rfl, rfl⟩
+  | byKey k => exact ⟨rfl, rfl⟩
+  | byHuman pid h => exact ⟨rfl, rfl⟩
+  | run i =>
+    refine ⟨?_, rfl⟩
+    rw [step_run]
+    split
+    · rfl
+    · exact (applyCleanup_cache _ _).2
+  | restart v => exact absurd rfl (h2 v)
+
+theorem tracks_sync {R : Latest → Latest → Prop} {B : Backend} (hB : B.Honest R) {s : St} {S : Spec}
+    {now : Nat} (h : Tracks R B s S now) (full : Bool) (n : Nat) (hn : now ≤ n) :
+    Tracks R B (step s (syncOp B s full n)) (specStep S (syncOp B s full n)) n := by
+  cases full with
+  | true =>
+    have hd : R (Latest.empty.overlay (B.resp 0 n).1 (B.resp 0 n).2) (B.state n) :=
+      hB.delta 0 n Latest.empty (Nat.zero_le n) hB.init
+    refine ⟨hd, rfl, ?_, Nat.le_refl n⟩
+    intro f hf
+    have : f = ⟨n, (B.resp 0 n).1, (B.resp 0 n).2⟩ := by
+      have := hf; simp [specStep, syncOp, reqTime] at this; exact this.symm
+    subst this
+    exact ⟨hd, Nat.le_refl n⟩
+  | false =>
+    have ht : s.syncTime ≤ n := Nat.le_trans h.le hn
+    refine ⟨hB.delta s.syncTime n S.cur ht h.cur, h.cache, ?_, Nat.le_refl n⟩
+    intro f hf
+    have := h.disk f (by simpa [specStep, syncOp] using hf)
+    exact ⟨this.1, Nat.le_trans this.2 hn⟩
+
+theorem tracks_other {R : Latest → Latest → Prop} {B : Backend} (hB : B.Honest R) {s : St} {S : Spec}
+    {now : Nat} (h : Tracks R B s S now) (o : Op) (hok : ∀ full t ps ds, o ≠ .sync full t ps ds) :
+    Tracks R B (step s o) (specStep S o) now := by
+  by_cases hr : ∃ v, o = .restart v
+  · obtain ⟨v, rfl⟩ := hr
+    have hc : (step s (.restart v)).cache = S.disk := by
+      show (loadCache v s.cache).cache = S.disk
+      rw [loadCache_cache]; exact h.cache
+    have ht : (step s (.restart v)).syncTime =
+        (match S.disk with
+        | some f => if f.usable v then f.time else 0
+        | none => 0) := by
+      show (loadCache v s.cache).syncTime = _
+      rw [loadCache_syncTime, h.cache]
+    refine ⟨?_, hc, h.disk, ?_⟩
+    · show R (restartLatest v S.disk) (B.state (step s (.restart v)).syncTime)
+      rw [ht]
+      cases hd : S.disk with
+      | none => exact hB.init
+      | some f =>
+        simp only [restartLatest]
+        by_cases hu : f.usable v
+        · rw [if_pos hu, if_pos hu]; exact (h.disk f hd).1
+        · rw [if_neg hu, if_neg hu]; exact hB.init
+    · rw [ht]
+      cases hd : S.disk with
+      | none => exact Nat.zero_le _
+      | some f =>
+        simp only []
+        by_cases hu : f.usable v
+        · rw [if_pos hu]; exact (h.disk f hd).2
+        · rw [if_neg hu]; exact Nat.zero_le _
+  · have hnr : ∀ v, o ≠ .restart v := fun v hv => hr ⟨v, hv⟩
+    obtain ⟨e1, e2⟩ := step_syncTime_lookup (S := S) s o hok hnr
+    refine ⟨by rw [e1, e2]; exact h.cur, ?_, by rw [e2]; exact h.disk, by rw [e1]; exact h.le⟩
+    rw [e2, step_cache_other s o hok]; exact h.cache
+
+theorem tracks_run {R : Latest → Latest → Prop} (B : Backend) (hB : B.Honest R) (acts : List Act) :
+    ∀ (s : St) (S : Spec) (now : Nat),
+    Tracks R B s S now → (∀ a ∈ acts, a.ok) → Mono now acts →
+    ∃ now', Tracks R B ((opsOf B acts s).foldl step s) ((opsOf B acts s).foldl specStep S) now' := by
+  induction acts with
+  | nil => intro s S now h _ _; exact ⟨now, h⟩
+  | cons a r ih =>
+    intro s S now h hok hm
+    have hokr : ∀ a ∈ r, a.ok := fun a ha => hok a (List.mem_cons_of_mem _ ha)
+    cases a with
+    | sync full n =>
+      obtain ⟨hn, hm'⟩ := hm
+      simp only [opsOf, List.foldl]
+      exact ih _ _ n (tracks_sync hB h full n hn) hokr hm'
+    | fail full =>
+      simp only [opsOf]
+      exact ih s S now h hokr hm
+    | op o =>
+      have hns : ∀ full t ps ds, o ≠ .sync full t ps ds := by
+        intro full t ps ds he
+        have := hok (.op o) (by simp)
+        rw [he] at this
+        exact this
+      simp only [opsOf, List.foldl]
+      exact ih _ _ now (tracks_other hB h o hns) hokr hm
+
+/-! A realistic honest backend: its records are the overlay of its change log (tombstones are
+records), and "since `t`" is answered with the change sets of the times after `t`. -/
+
+theorem putMany_append {K V : Type} [DecidableEq K] (m : K → Option V) (xs ys : List (List K × V)) :
+    putMany m (xs ++ ys) = putMany (putMany m xs) ys := by
+  unfold putMany; rw [List.foldl_append]
+
+theorem overlay_append (L : Latest) (p1 p2 : List Profile) (d1 d2 : List Device) :
+    L.overlay (p1 ++ p2) (d1 ++ d2) = (L.overlay p1 d1).overlay p2 d2 := by
+  unfold Latest.overlay profItems devItems
+  simp only [List.map_append, putMany_append]
+
+theorem overlay_nil (L : Latest) : L.overlay [] [] = L := rfl
+
+def logState (log : Nat → List Profile × List Device) : Nat → Latest
+  | 0 => Latest.empty
+  | n + 1 => (logState log n).overlay (log (n + 1)).1 (log (n + 1)).2
+
+def logResp (log : Nat → List Profile × List Device) (t : Nat) : Nat → List Profile × List Device
+  | 0 => ([], [])
+  | n + 1 => if n + 1 ≤ t then ([], [])
+    else ((logResp log t n).1 ++ (log (n + 1)).1, (logResp log t n).2 ++ (log (n + 1)).2)
+
+def logBackend (log : Nat → List Profile × List Device) : Backend :=
+  { state := logState log, resp := logResp log }
+
+theorem logBackend_honest (log : Nat → List Profile × List Device) :
+    (logBackend log).Honest (fun L L' => L = L') := by
+  refine ⟨rfl, ?_⟩
+  intro t n L htn hL
+  subst hL
+  show (logState log t).overlay (logResp log t n).1 (logResp log t n).2 = logState log n
+  induction n with
+  | zero =>
+    have : t = 0 := by omega
+    subst this; rfl
+  | succ n ih =>
+    by_cases h : n + 1 ≤ t
+    · have : t = n + 1 := by omega
+      subst this
+      simp only [logResp, if_pos (Nat.le_refl _)]
+      rfl
+    · have htn' : t ≤ n := by omega
+      simp only [logResp, if_neg h]
+      rw [overlay_append, ih htn']
+      rfl
 
 end Agd.ProfileDB
